@@ -22,6 +22,8 @@ import (
 // default GC target a third of the run is collector work. Not a correctness knob.
 func init() { debug.SetGCPercent(400) }
 
+const slowdown = 12 // see the progress check in evalOnce
+
 const minCompared = 3 // a case with fewer compared values on every output is "short" (inconclusive, not failed)
 
 // mayReject lists the source shapes for which DESIGN §C05 accepts "assembler error" as an outcome
@@ -302,7 +304,7 @@ func evalOnce(c Case, m mode, rs *refSource, net *refNet, lab map[string]bool, r
 	if serr != nil {
 		return pbt.Outcome{Fail: pbt.Failf("sim-error", "simulation of the assembled machine fails: %v\n--- source ---\n%s", serr, c.Src)}
 	}
-	ref := net.run(c.In, c.Ticks+8, 0)
+	ref := net.run(c.In, c.Ticks+8, 0, false)
 	if ref.Stats.Overflow {
 		return pbt.Outcome{Excluded: "D1:literal-wider-than-register"}
 	}
@@ -372,6 +374,19 @@ func evalOnce(c Case, m mode, rs *refSource, net *refNet, lab map[string]bool, r
 			sig = "stream-extra"
 		}
 		return pbt.Outcome{Fail: pbt.Failf(sig, "%s\n%s--- source ---\n%s", what, describe(), c.Src)}
+	}
+	// progress: whatever the source delivers in Ticks/slowdown rounds of strict rendezvous execution, the
+	// machine must have delivered in Ticks ticks (an instruction of the machine takes one tick, a handshake
+	// with the environment at most stall/gap+4, between processors about 5)
+	slow := net.run(c.In, c.Ticks/slowdown, 0, true)
+	for o := 0; o < net.NOut; o++ {
+		if len(sim[o]) < len(slow.Out[o]) {
+			return pbt.Outcome{Fail: pbt.Failf("starved", "output o%d: the machine delivered %d values in %d ticks, the source delivers %d in %d instruction rounds\n%s--- source ---\n%s",
+				o, len(sim[o]), c.Ticks, len(slow.Out[o]), c.Ticks/slowdown, describe(), c.Src)}
+		}
+		if len(slow.Out[o]) > 0 {
+			lab["progress-checked"] = true
+		}
 	}
 	if maxCmp < minCompared {
 		lab["short"] = true
